@@ -216,7 +216,32 @@ def twin(rep):
 def planes_of(ins, i, m): return (ins[(i, 0, 0)], ins[(i, 1, 0)], ins[(i, 2, 0)] if m == 8 else lanes.ZERO)
 
 
+def big_batch(rep):
+    """beyond the symbolic bound (<= 17 patterns): one simulation with more than 2^19 patterns against the same stimuli simulated in pieces of 4096 patterns
+    (patterns are independent) - concrete, stated as such"""
+    import numpy as np
+    nl = netlist.NL('big', [('a', 'in'), ('b', 'in'), ('c', 'in'), ('y', 'out'), ('z', 'out')], [('g1', 'AND2', ['t'], ['a', 'b']), ('g2', 'NOR3', ['y'], ['t', 'c', 'a']), ('g3', 'AO21', ['z'], ['t', 'b', 'c'])])
+    c = netlist.build(nl, 'verilog')
+    rng = np.random.default_rng(11)
+    sims = 2 ** 19 + 512
+    for m in (4, 8):
+        s = LogicSim(c, sims, m=m)
+        stim = rng.integers(0, 256, s.s[0].shape, dtype=np.uint8)
+        s.s[0] = stim; s.s_to_c(); s.c_prop(); s.c_to_s()
+        nb = s.s.shape[-1]
+        rep.counts['concrete_large_batch_runs'] += 1
+        for a in range(0, nb, 512):
+            p = LogicSim(c, 8 * min(512, nb - a), m=m)
+            p.s[0] = stim[..., a:a + 512]; p.s_to_c(); p.c_prop(); p.c_to_s()
+            if not np.array_equal(p.s[1][:, :3 if m == 8 else 2], s.s[1][:, :3 if m == 8 else 2, a:a + 512]):
+                rep.violation(f'large-batch/m{m}', f'm={m}: simulating {sims} patterns at once differs from simulating the same patterns in pieces (first differing byte block at {a})', {'mode': 'bigbatch'})
+                break
+
+
 def replay(data):
+    if data.get('mode') == 'bigbatch':
+        r = common.Report(); big_batch(r)
+        return bool(r.violations), r.violations[0]['what'] if r.violations else 'ok'
     bad = concrete(data['recipe'], data['sims'], data['m'], {tuple(k): v for k, v in data['in_bytes']}, data.get('w_bytes', {}), data.get('opt', ''))
     return bool(bad), str(bad[:2] if bad else 'no mismatch')
 
@@ -224,6 +249,7 @@ def replay(data):
 def run(tier, seed):
     rep = common.pmap(check_item, sorted(corpus(tier, seed), key=lambda it: -it[1] * (50 if it[0][0] != 'nl' else len(it[0][1]['gates']))), chunksize=1)
     twin(rep)
+    big_batch(rep)
     cov = {
         'states': int(rep.counts['circuits']), 'transitions': int(rep.counts['ops']), 'traces_validated_against_impl': len(rep.violations),
         'obligations': int(rep.counts['obligations']), 'discharged': int(rep.counts['discharged']),
